@@ -53,6 +53,8 @@ def main():
     os.environ["TMPDIR"] = scratch
     tempfile.tempdir = scratch
     os.environ.setdefault("PYTHONHASHSEED", "0")
+    if not os.environ.get("VERIF_DEBUG"):
+        sys.stderr = open(os.devnull, "w")      # gffutils' progress output
     rc = 2
     try:
         rc = run(prop, a.tier, seed, scratch, a.replay, t0)
